@@ -21,7 +21,7 @@ MANIFEST_INFO = {
     "engine": "B",
     "design_ref": "DESIGN.md section 5, C11",
     "technique": "exhaustive enumeration of decorator trees (CopyStreamResult, StreamTagger x3 parameterisations (add only, add+discard, discard only), TimestampingStreamResult, StreamToQueue drained into its child, StreamFailFast, recording sinks; depth <= 3, fan-out <= 2/3) x all event sequences up to a length bound (tags as set / frozenset / None / empty, timestamp present or absent, positional or keyword ids), each executed on fresh real objects; expected sink logs are the composition of pure per-decorator transforms along each path; argument and alias snapshots",
-    "level_text": "Every spine tree of decorator depth <= 2 with every leaf-sibling placement (about 2000 trees) and every depth-3 spine (quick: siblings only at the root; thorough: everywhere, plus fan-out 3) is built afresh and fed startTestRun, every sequence of <= 2 (quick) / 3 (thorough) events from a 13-event alphabet; sinks that return None or a truthy value; taggers configured with sets or one-shot iterators, stopTestRun. Each sink must have received exactly the sent events transformed by the decorators on its own path (tags added/discarded, missing timestamp filled with a tz-aware UTC 'now' inside the call bracket, route code prefixed) and nothing else; the fail-fast callback count must equal the number of fail/uxsuccess events reaching it; the caller's argument objects must be unchanged after every call; no tag set held by one sink may change after it was delivered (aliasing with a sibling or the caller).",
+    "level_text": "Every spine tree of decorator depth <= 2 with every leaf-sibling placement (about 2000 trees) and every depth-3 spine (quick: siblings only at the root; thorough: everywhere, plus fan-out 3) is built afresh and fed startTestRun, every sequence of <= 2 (quick) / 3 (thorough) events from a 14-event alphabet (incl. an empty-string route code), also with the run ended and the same tree started again in between; sinks that return None or a truthy value; taggers configured with sets or one-shot iterators, stopTestRun. Each sink must have received exactly the sent events transformed by the decorators on its own path (tags added/discarded, missing timestamp filled with a tz-aware UTC 'now' inside the call bracket, route code prefixed) and nothing else; the fail-fast callback count must equal the number of fail/uxsuccess events reaching it; the caller's argument objects must be unchanged after every call; no tag set held by one sink may change after it was delivered (aliasing with a sibling or the caller).",
     "level_note": "Only test_id/test_status are passed positionally (as every caller in testtools does); StreamToQueue is drained by the harness after every call, forwarding start/stop/status to its child.",
 }
 
@@ -160,7 +160,15 @@ EVENTS = [
     (ev(test_status="success", test_tags=("t",)), "set", True),
     (ev(test_status="unknown", test_tags=()), "frozenset", False),
     (ev(test_status="inprogress", test_tags=("t",), timestamp=None), "set", False),
+    (ev(test_status="success", route_code=""), None, False),  # an empty route code is not "no route code"
 ]
+
+# pseudo event: the run ends and the same tree is used for another run
+RESTART = "restart"
+
+
+def _spec(i):
+    return RESTART if i == -1 else EVENTS[i]
 
 
 def send(top, spec, after=lambda: None):
@@ -198,6 +206,13 @@ def run_case(tree, seq):
         top.startTestRun()
         drain(built)
         for spec in seq:
+            if spec is RESTART:
+                top.stopTestRun()
+                drain(built)
+                top.startTestRun()
+                drain(built)
+                sent.append(RESTART)
+                continue
             tag_obj, before, mutated, br = send(top, spec, lambda: drain(built))
             brackets.append(br)
             d = dict(spec[0])
@@ -213,7 +228,13 @@ def run_case(tree, seq):
         problems.append(("call-raised", "%s: %s" % (type(e).__name__, str(e)[:150])))
         return problems
     for path, sink in built.sinks:
-        exp = [("startTestRun",)] + [("status", transform(path, d)) for d in sent] + [("stopTestRun",)]
+        exp = [("startTestRun",)]
+        for d in sent:
+            if d is RESTART:
+                exp += [("stopTestRun",), ("startTestRun",)]
+            else:
+                exp.append(("status", transform(path, d)))
+        exp.append(("stopTestRun",))
         got = sink.log
         ok = len(got) == len(exp)
         if ok:
@@ -244,7 +265,7 @@ def run_case(tree, seq):
                 if obj is cobj and isinstance(obj, set) and any(s[0] == "tag" for s in path):
                     problems.append(("alias", "sink behind %r holds the caller's own mutable tag set although a tagger sits in between" % (path,)))
     for path, counter in built.ffs:
-        want = sum(1 for d in sent if d["test_status"] in ("fail", "uxsuccess"))
+        want = sum(1 for d in sent if d is not RESTART and d["test_status"] in ("fail", "uxsuccess"))
         if len(counter) != want:
             problems.append(("failfast", "fail-fast callback behind %r fired %d times, expected %d" % (path, len(counter), want)))
     for obj, before in caller_refs:
@@ -337,6 +358,14 @@ def sequences(tier):
             # length 3: all triples over the tag-bearing and timestamp-less events
             sub = [1, 2, 3, 4, 5, 9, 12]
             out.extend(itertools.product(sub, repeat=3))
+    # the same tree used for a second (third) run
+    few = [1, 4, 6]
+    out.append((-1,))
+    for i in few:
+        out.extend([(i, -1), (-1, i)])
+        for j in few:
+            out.append((i, -1, j))
+    out.append((1, -1, -1, 2))
     return out
 
 
@@ -354,7 +383,7 @@ def run_shard(shard, tier, seed):
     for tree in ts[shard::NSHARDS]:
         res.states += 1
         for seq in seqs:
-            problems = run_case(tree, [EVENTS[i] for i in seq])
+            problems = run_case(tree, [_spec(i) for i in seq])
             res.evaluations += 1
             res.transitions += len(seq) + 2
             if seq:
@@ -390,5 +419,5 @@ def _tuplify(t):
 
 def replay(data):
     tree = _tuplify(data["tree"])
-    problems = run_case(tree, [EVENTS[i] for i in data["events"]])
+    problems = run_case(tree, [_spec(i) for i in data["events"]])
     return (not problems), "tree=%r events=%r problems=%r" % (tree, data["events"], problems)
